@@ -71,6 +71,42 @@ func runSolver(ctx context.Context, s solverSpec, file string, timeoutS int, see
 }
 
 // discharge tries to prove one obligation: script must be unsat.
+// lightScript drops the recursive spec-function block and every assertion that
+// mentions a spec function: a weakening of the hypotheses, so "unsat" is still a proof.
+func lightScript(script string) (string, bool) {
+	if !strings.Contains(script, "spec!") {
+		return "", false
+	}
+	var b strings.Builder
+	skip := false
+	depth := 0
+	for _, ln := range strings.Split(script, "\n") {
+		if strings.HasPrefix(ln, "(define-funs-rec") {
+			skip = true
+			depth = 0
+		}
+		if skip {
+			depth += strings.Count(ln, "(") - strings.Count(ln, ")")
+			if depth <= 0 {
+				skip = false
+			}
+			continue
+		}
+		if strings.Contains(ln, "spec!") {
+			if strings.HasPrefix(ln, "(assert (not ") && !strings.Contains(ln, "; axiom") {
+				// the negated goal itself needs spec functions: no light version
+				if strings.HasPrefix(ln, "(assert (not") {
+					return "", false
+				}
+			}
+			continue
+		}
+		b.WriteString(ln)
+		b.WriteString("\n")
+	}
+	return b.String(), true
+}
+
 func discharge(script string, dir string, name string, timeoutS int, seed int, stage1Only bool) solveResult {
 	file := filepath.Join(dir, sanitize(name)+".smt2")
 	if len(file) > 200 {
@@ -79,12 +115,8 @@ func discharge(script string, dir string, name string, timeoutS int, seed int, s
 	if err := os.WriteFile(file, []byte(script), 0o644); err != nil {
 		return solveResult{status: "error", output: err.Error()}
 	}
-	// stage 1: z3-new with E-matching only (no MBQI): proves or gives up quickly
-	r := runSolver(context.Background(), ematch, file, timeoutS, seed)
-	if r.status == "unsat" {
-		return r
-	}
 	if stage1Only {
+		r := runSolver(context.Background(), ematch, file, timeoutS, seed)
 		if r.status != "sat" && r.status != "unsat" {
 			r2 := runSolver(context.Background(), solvers[0], file, timeoutS, seed)
 			if r2.status == "sat" || r2.status == "unsat" {
@@ -93,19 +125,28 @@ func discharge(script string, dir string, name string, timeoutS int, seed int, s
 		}
 		return r
 	}
-	first := r
-	// stage 2: race all solvers with the full budget
+	// stage 0: hypotheses without spec functions (enough for most safety obligations)
+	if light, ok := lightScript(script); ok {
+		lf := strings.TrimSuffix(file, ".smt2") + ".light.smt2"
+		os.WriteFile(lf, []byte(light), 0o644)
+		r := runSolver(context.Background(), ematch, lf, min(timeoutS, 2), seed)
+		if r.status == "unsat" {
+			r.solver += "(light)"
+			return r
+		}
+	}
+	// stage 1: race all back ends with the full budget; first "unsat" wins
 	ctx, cancel := context.WithCancel(context.Background())
 	defer cancel()
-	ch := make(chan solveResult, len(solvers))
+	all := append([]solverSpec{ematch}, solvers...)
+	ch := make(chan solveResult, len(all))
 	var wg sync.WaitGroup
-	for _, s := range solvers {
+	for _, s := range all {
 		wg.Add(1)
 		go func(s solverSpec) {
 			defer wg.Done()
 			f := file
 			if s.name == "cvc5" {
-				// cvc5 needs a logic and produce-models before it
 				f = strings.TrimSuffix(file, ".smt2") + ".cvc5.smt2"
 				os.WriteFile(f, []byte("(set-logic ALL)\n"+script), 0o644)
 			}
@@ -113,18 +154,17 @@ func discharge(script string, dir string, name string, timeoutS int, seed int, s
 		}(s)
 	}
 	go func() { wg.Wait(); close(ch) }()
-	best := first
+	var best solveResult
+	best.status = "timeout"
 	for res := range ch {
 		if res.status == "unsat" {
 			cancel()
 			return res
 		}
 		if res.status == "sat" && best.status != "sat" {
-			out := first.output
 			best = res
-			if first.status != "sat" {
-				best.output = res.output + "\n;; candidate from " + first.solver + ":\n" + out
-			}
+		} else if best.status != "sat" && res.status == "unknown" && strings.Contains(res.output, "define-fun") {
+			best = res // unknown with a candidate model
 		}
 	}
 	return best
